@@ -23,6 +23,9 @@ RULE = (
     "internal placeholder. Non-trivial: the emitted text contains a block "
     "keyword. Cases in which the learner raises are C01's business.")
 ASSUMPTIONS = [
+    "two families are enumerated completely on every run in addition to the "
+    "drawn cases: 1000 loop/break shapes and 320 nested-fork shapes "
+    "(vlib/gen.py loop_shapes, fork_shapes; complete job sets)",
     "vlib/pumlsem.validate_strict states the dialect plus2json consumes, "
     "as far as the property text fixes it; indentation, >=2 branches per "
     "block and non-empty branches are not demanded (counted only)",
@@ -110,6 +113,15 @@ def run_shard(ctx):
             run_case(case, ctx)
         except Violation as v:
             ctx.violation(case, str(v))
+            return
+    # exhaustive nested-fork family (320 definitions, complete sets)
+    for tag, case in pvcase.fork_shape_cases(ctx.seed, ctx.shard,
+                                             ctx.nshards):
+        ctx.count("fork_shapes_enumerated")
+        try:
+            run_case(dict(case, k=2) if ID == "C02" else case, ctx)
+        except Violation as v:
+            ctx.violation(case, f"[fork shape {tag}] " + str(v))
             return
     # exhaustive loop/break family (1000 definitions, complete sets, k=2)
     for tag, case in pvcase.loop_shape_cases(ctx.seed, ctx.shard,
